@@ -48,7 +48,7 @@ def run(ctx):
     nontrivial = 0
     for i in range(ctx.n(500, 20000)):
         if i % 5 == 4:
-            segs = gen_daqmx.draw(ctx.rnd, byte_digital_only=True, disjoint=True)
+            segs = gen_daqmx.draw(ctx.rnd, byte_digital_only=False, disjoint=True)
             stats["daqmx"] += 1
         else:
             segs = gen_files.FileGen(ctx.rnd).draw()
